@@ -209,6 +209,9 @@ let parse_top (s : string) : top * string =
     | _, ["nrvo"; v] -> TFreshNRVO (nat 1, nat 2, bytes_of_hex v)
     | _, ["mctor"; v] -> TFreshMoveCtor (nat 1, nat 2, bytes_of_hex v)
     | _, ["masg"; v] -> TFreshMoveAsg (nat 1, nat 2, bytes_of_hex v)
+    | _, ["via"; temps; v] ->
+        let ts = List.filter (fun x -> x <> "") (split_on '/' temps) in
+        TFreshVia (nat 1, nat 2, List.map bytes_of_hex ts, bytes_of_hex v)
     | _, ["empty"] -> TEmpty (nat 1)
     | _, ["copy"] -> TCopyOf (nat 1, nat 2)
     | _, ["copymove"] -> TCopyMove (nat 1, nat 2)
